@@ -328,3 +328,24 @@ Proof.
   vm_compute. split; [|reflexivity].
   repeat constructor; cbn; intros H; discriminate H.
 Qed.
+
+(* "WebVTT output never contains a non-percentage length" at the level of the printed TEXT (model/VttText.v: the string
+   _convert_positioning returns, request 1321): computed cue settings are [" align:<name>"] [" position:<n>%"] [" line:<n>%"]
+   [" size:<n>%"], every length a number (digits, optionally a point and one or two digits) followed by the percent sign -
+   in every configuration; lengths non-negative (a padding wider than the cue gives a negative size, outside the size language) *)
+From PV Require Import model.DfxpAlign model.VttText proofs.GeomPrint proofs.Pos13VttTextFacts.
+Theorem C13_vtt_text_percent : forall c lo v, vtt_convert_positioning c lo = Ok (VSet v) -> vs_nonneg v ->
+  forall z, In (Some z) [vs_position v; vs_line v; vs_size v] -> pct_text (size_str z).
+Proof. exact vtt_text_percent. Qed.
+Print Assumptions C13_vtt_text_percent.
+
+Example C13_ex_vtt_text :
+  let s v := mkSize v PCT in
+  let px v := mkSize v PX in
+  match vtt_convert_positioning (mkCfg true true (Some (640 # 1)) (Some (360 # 1)))
+          (Some (mkLayout (Some (mkPoint (px (64 # 1)) (px (36 # 1)))) (Some (mkStretch (px (333 # 1)) (px (36 # 1)))) None
+                          (Some (mkAlign (Some HRight) None)) None)) with
+  | Ok o => vtt_settings_text o = lit " align:right position:10% line:10% size:52.03%"
+  | Err _ => False
+  end.
+Proof. vm_compute. reflexivity. Qed.
